@@ -35,7 +35,7 @@ func init() {
 		Rule: "same seeded Failover/FailoverOf cases as C01 plus backend Read/Write failures injected at a seeded call index (and, per case family, at every call index in turn); unique tokens for every pre-populated/built value and every builder/backend error; " +
 			"offline oracle over the event log: every (v,nil) is a token of the same key pre-populated or built and finished before the Get returned, every error is a builder error of the same key or a backend error injected on that key; " +
 			"distinct_nontrivial = distinct (config, schedule signature) of runs with a waiter, an early-return path or an injected fault",
-		Required:    []string{"runs.steered", "runs.free", "gets", "waiters.served", "faults.injected", "results.stale_served", "results.error", "api.Failover", "api.FailoverOf"},
+		Required:    []string{"runs.steered", "runs.free", "gets", "waiters.served", "faults.injected", "results.stale_served", "results.error", "api.Failover", "api.FailoverOf", "family.foreign_expired_item_backend", "family.hostile_expireall_at_callout"},
 		Assumptions: []string{"tokens are unique per run; zero values are never produced by the harness"},
 		Timeout:     func(string) time.Duration { return 45 * time.Minute },
 	})
@@ -105,6 +105,19 @@ func runFoGeneric(b *Batch, prop string) {
 			c.Cfg.BareExpired = true // a third-party style backend: expiry without the stale item (allowed by the ErrExpired doc)
 			c.CfgS = c.Cfg.String()
 			b.R.Count("family.bare_expired_backend", 1)
+		}
+		if prop == "C02" && i%12 == 7 && c.Cfg.API == "FailoverOf" {
+			c.Cfg.ForeignExpired = true
+			c.CfgS = c.Cfg.String()
+			b.R.Count("family.foreign_expired_item_backend", 1)
+		}
+		if prop == "C02" && i%6 == 4 {
+			// an entry expired beyond MaxStaleness gets its expiry moved to "now" by a foreign ExpireAll while a Get is deciding
+			c.HostileExpireAllAt = int64(1 + rng.Intn(6))
+			c.Cfg.MaxStaleness = time.Hour
+			c.CfgS = c.Cfg.String()
+			c.States[0] = "toostale"
+			b.R.Count("family.hostile_expireall_at_callout", 1)
 		}
 		if prop == "C02" && i%3 == 0 {
 			// fault enumeration: the same case is re-run with a backend failure injected at every call index in turn
